@@ -75,23 +75,29 @@ example : Placed c09ExChain (.leaf {} (.xref "a")) [.str "d"] :=
 
 /- the chain of texts the loop has seen never contains a text twice (the general fact behind the
    bound): a continuing iteration met a text that was not in the chain, whose path is not memoised,
-   is not the path of the reference itself, and holds another reference -/
+   is not the path of the reference itself, and holds another reference; it goes on in the same
+   state if that reference is safe, and with the counter of unsafe content bumped if it is unsafe
+   (non-strict mode only: in strict mode an unsafe reference ends the loop with `UnsafeError`) -/
 theorem C09_xref_step (rec : Rec) (root : Node) (rs : Bool) (self : Path) (fuel : Nat) (cur : String)
     (chain : List String) (st : EvSt) :
     (∃ r, xrefStep rec root rs self cur chain st = .done r ∧
       xrefLoop rec root rs self (fuel + 1) cur chain st = r) ∨
-    (∃ next tp f, xrefStep rec root rs self cur chain st = .next next ∧
-      xrefLoop rec root rs self (fuel + 1) cur chain st = xrefLoop rec root rs self fuel next (chain ++ [cur]) st ∧
+    (∃ next st1 tp f, xrefStep rec root rs self cur chain st = .next next st1 ∧
+      xrefLoop rec root rs self (fuel + 1) cur chain st = xrefLoop rec root rs self fuel next (chain ++ [cur]) st1 ∧
       cur ∉ chain ∧ splitPath cur = some tp ∧ tp ≠ self ∧ plookup tp st.cache = none ∧
-      getNode root tp = some (.leaf f (.xref next))) := by
+      getNode root tp = some (.leaf f (.xref next)) ∧
+      ((eSafe f = true ∧ st1 = st) ∨ (eSafe f = false ∧ rs = false ∧ st1 = seeTaint st))) := by
   rw [xrefLoop_succ]
   cases h : xrefStep rec root rs self cur chain st with
   | done r => exact .inl ⟨r, rfl, rfl⟩
-  | next t =>
+  | next t s1 =>
     obtain ⟨h1, tp, f, h2, h3, h4, h5⟩ := xrefStep_next h
-    exact .inr ⟨t, tp, f, rfl, rfl, h1, h2, h3, h4, h5⟩
+    obtain ⟨tp', f', h2', h5', h6⟩ := xrefStep_next_state h
+    rw [h2] at h2'; cases h2'
+    rw [h5] at h5'; cases h5'
+    exact .inr ⟨t, s1, tp, f, rfl, rfl, h1, h2, h3, h4, h5, h6⟩
 
-example : xrefStep (evalNodeF c09ExChain {} 20) c09ExChain false [.str "d"] "a" [] {} = .next "b" := rfl
+example : xrefStep (evalNodeF c09ExChain {} 20) c09ExChain false [.str "d"] "a" [] {} = .next "b" {} := rfl
 
 /-! ### Errors -/
 
